@@ -206,6 +206,7 @@ class SimTransport(Transport):
         self.send_calls = 0
         self.sent_after_close = 0
         self.auto_ack = False   # behave like a live server: answer every respond-flagged KEEPALIVE
+        self.close_raises = False   # close() fails the way a reset TCP connection does (wait_closed re-raising)
 
     async def connect(self):
         self.connect_calls += 1
@@ -290,6 +291,8 @@ class SimTransport(Transport):
 
     async def close(self):
         self.closed += 1
+        if self.close_raises:
+            raise ConnectionResetError('connection reset by peer')
 
     # harness helpers
     def feed(self, frame):
